@@ -509,7 +509,9 @@ class FullCaseCitation(CaseCitation, FullCitation):
             self.metadata.defendant = preceding.metadata.defendant
             self.metadata.plaintiff = preceding.metadata.plaintiff
             # California style may have a year prior to citation; merge as well
-            if preceding.metadata.year:
+            # (only a year that passed the range check: a rejected one must
+            # not erase this citation's own year)
+            if preceding.year:
                 self.metadata.year = preceding.metadata.year
                 self.year = preceding.year
 
